@@ -3,7 +3,9 @@
 # copies patch.diff / demo_test.go / note.txt of a confirmed seeded change into seeded/<id>/ and writes meta.json
 import json, os, shutil, sys
 sid, prop, src, rnd, change, needs = sys.argv[1:7]
-d = f"/verif/seeded/{sid}"; os.makedirs(d, exist_ok=True)
+d = f"/verif/seeded/{sid}"
+if os.path.exists(d): sys.exit(f"{d} exists: choose a fresh id")
+os.makedirs(d)
 shutil.copy(f"{src}/patch.diff", f"{d}/patch.diff")
 shutil.copy(f"{src}/demo_test.go", f"{d}/demo_test.go.txt")
 if os.path.exists(f"{src}/note.txt"): shutil.copy(f"{src}/note.txt", f"{d}/agent_notes.md")
